@@ -130,5 +130,22 @@ theorem atomStep_sem (cx : Ctx) (a : Atom) (st : St) (hv : Valid cx st) (ha : a.
   | require n =>
     have g1 : st.endp - st.cur.pos ≥ n ↔ st.cur.pos + n ≤ st.endp := by omega
     by_cases h0 : st.cur.pos + n ≤ st.endp <;> simp [atomStep, atomSem, St.avail, g1, h0]
+  | utf8Range found lo hi =>
+    simp only [atomStep, atomSem, windowBytes, St.avail]
+    cases Utf.peekUtf8 (List.take (st.endp - st.cur.pos) (List.drop st.cur.pos cx.inp.toList)) with
+    | none => simp
+    | some v =>
+      obtain ⟨cp, n⟩ := v
+      by_cases hc : (decide (lo ≤ cp) && decide (cp ≤ hi)) = found <;> simp [hc]
+  | maxDigits mx =>
+    have hfun : isDigitB = (fun c => 48 ≤ c && c ≤ 57) := rfl
+    simp only [atomStep, atomSem, windowBytes, St.avail, digitsValue, hfun]
+    generalize List.takeWhile (fun c => decide (48 ≤ c) && decide (c ≤ 57))
+      (List.take (st.endp - st.cur.pos) (List.drop st.cur.pos cx.inp.toList)) = ds
+    by_cases h1 : ds.isEmpty = true
+    · simp [h1]
+    · by_cases h2 : ds.length > 1 ∧ ds.head? = some 48
+      · simp [h1, h2]
+      · by_cases h3 : List.foldl (fun acc d => acc * 10 + (d.toNat - 48)) 0 ds ≤ mx <;> simp [h1, h2, h3]
 
 end Pegtl
